@@ -45,6 +45,14 @@ def serde_stage(prop, tier, name):
             if not ev["same_result"]: why.append("the result (error) differs from serialising the value itself")
             if ev["count_after"] != ev["count_before"]: why.append("the count changed from %s to %s" % (ev["count_before"], ev["count_after"]))
             if ev["live_delta"] or ev["leaked"]: why.append("an allocation was made or left behind")
+        elif ev["op"] == "de_in_place":
+            if not ev["agree"]: why.append("outcome differs from the value's own deserialiser (Ok vs Err, or a different error)")
+            if ev["ok"] and (ev["count"] != 1 or not ev["moved"]): why.append("the handle is not a fresh sole owner afterwards (count %s, %s block)" % (ev["count"], "new" if ev["moved"] else "same"))
+            if not ev["ok"] and (ev["count"] != ev["others"] + 1 or ev["moved"]): why.append("the handle was changed although deserialisation failed (count %s)" % ev["count"])
+            if not ev["others_intact"]: why.append("another owner of the old value sees it changed")
+            if not ev["value_ok"]: why.append("the handle does not hold the expected value afterwards")
+            if ev["others"] and ev["others_count"] != (ev["others"] if ev["ok"] else ev["others"] + 1): why.append("the old value's count is %s" % ev["others_count"])
+            if ev["left"]: why.append("%s allocation(s) left behind" % ev["left"])
         else:
             if not ev["agree"]: why.append("outcome differs from the value's own deserialiser (Ok vs Err, or a different error)")
             if ev["ok"] and not ev["value_equal"]: why.append("the value differs from what T's deserialiser yields")
@@ -54,8 +62,8 @@ def serde_stage(prop, tier, name):
         key = "serde:%s:%s:%s:%s" % (ev["op"], ev["kind"], ev["payload"], "; ".join(why) or "?")
         res["violations"].append({"stage": name, "key": key, "event": ev,
                                   "errors": ["[serde] %s of %s<%s> with a fault at callback %s%s: %s" % (
-                                      "serialising" if ev["op"] == "ser" else "deserialising", "Arc" if ev["kind"].startswith("arc") else "UniqueArc",
-                                      ev["payload"], ev["k"], (" (input cut to %s tokens)" % ev["cut"]) if ev.get("cut") is not None and ev["op"] == "de" else "",
+                                      "serialising" if ev["op"] == "ser" else "deserialising in place into" if ev["op"] == "de_in_place" else "deserialising", "Arc" if ev["kind"].startswith("arc") else "UniqueArc",
+                                      ev["payload"], ev["k"], ((" (input cut to %s tokens)" % ev["cut"]) if ev.get("cut") is not None and ev["op"] != "ser" else "") + ("" if ev.get("human_readable", 1) else " (is_human_readable = false)") + ((" with %s other owner(s)" % ev["others"]) if "others" in ev else ""),
                                       "; ".join(why) or "not a behaviour of Serde.tla")]})
         rest = [rest[0]] + rest[i + 1:]
         if len(rest) <= 1:
